@@ -1036,7 +1036,20 @@ pub fn gen_stdin(rng: &mut Rng, big: bool) -> Case {
     }
     let mut faults = Vec::new();
     let f = |site: &str, nth: u32, kind: &str, arg: u64| Fault { site: site.into(), path: String::new(), nth, kind: kind.into(), arg };
-    match rng.below(10) {
+    match rng.below(13) {
+        10 => {
+            // the producer stalls (simulated seconds) before more input arrives: a consumer
+            // must wait for end of input, not for a quiet moment
+            faults.push(f("stdin.read", rng.below(3) as u32, "stall", *&[3u64, 30, 3600][rng.below(3) as usize]));
+            if rng.chance(50) {
+                faults.push(f("stdin.read", 0, "short", 1 + rng.below(9)));
+            }
+        }
+        11 => {
+            // a non-blocking stdout: part of the text is accepted, then EAGAIN
+            faults.push(f("stdout.write", 0, "short", 1 + rng.below(9)));
+            faults.push(f("stdout.write", 1, "EAGAIN", 0));
+        }
         0 => faults.push(f("stdin.read", rng.below(3) as u32, "EINTR", 0)),
         1 => faults.push(f("stdin.read", rng.below(2) as u32, "short", 1 + rng.below(7))),
         2 => faults.push(f("stdin.read", rng.below(2) as u32, "EIO", 0)),
@@ -1050,6 +1063,17 @@ pub fn gen_stdin(rng: &mut Rng, big: bool) -> Case {
             faults.push(f("stdout.write", 1, "EINTR", 0));
         }
         _ => {}
+    }
+    // stdin together with files on the same command line
+    if rng.chance(12) && opts.stdin_filepath.as_deref() != Some("keep.lua") {
+        let extra = rng.pick(&["keep.lua", "sub/x.lua"]).to_string();
+        if opts.stdin_filepath.as_deref() != Some(extra.as_str()) {
+            if rng.chance(50) {
+                opts.files.insert(0, extra);
+            } else {
+                opts.files.push(extra);
+            }
+        }
     }
     let inv = Invocation { opts, stdin: Some(input), faults, sched: random_sched(rng), dir_key: rng.next(), pre_edits: vec![] };
     Case { family: "stdin".into(), world: w, invs: vec![inv] }
